@@ -8,6 +8,7 @@ import (
 	"net/url"
 	"path"
 	"strings"
+	"sync"
 	"time"
 
 	"github.com/AdguardTeam/AdGuardDNS/internal/agdcache"
@@ -105,6 +106,12 @@ type Filter struct {
 	id       internal.ID
 	repIP    netip.Addr
 	repFQDN  string
+
+	// resCacheMu makes sure that a request that has consulted the previous
+	// hashes cannot put its result into resCache after a refresh has cleared
+	// it: requests hold it for reading, and a refresh takes it for writing to
+	// clear the cache once the new hashes are in place.
+	resCacheMu *sync.RWMutex
 }
 
 // IDPrefix is a common prefix for cache IDs, logging, and refreshes of
@@ -133,6 +140,8 @@ func NewFilter(c *FilterConfig) (f *Filter, err error) {
 		metrics:  c.Metrics,
 		resCache: resCache,
 		id:       id,
+
+		resCacheMu: &sync.RWMutex{},
 	}
 
 	repHost := c.ReplacementHost
@@ -174,6 +183,9 @@ func (f *Filter) FilterRequest(
 	req *internal.Request,
 ) (r internal.Result, err error) {
 	host, qt, cl := req.Host, req.QType, req.QClass
+
+	f.resCacheMu.RLock()
+	defer f.resCacheMu.RUnlock()
 
 	cacheKey := internal.NewCacheKey(host, qt, cl, false)
 	item, ok := f.itemFromCache(ctx, cacheKey, host)
@@ -444,7 +456,11 @@ func (f *Filter) refresh(ctx context.Context, acceptStale bool) (err error) {
 		return fmt.Errorf("%s: resetting: %w", f.id, err)
 	}
 
+	// Wait for the requests that may still be using the previous hashes, so
+	// that none of them can leave a stale result in the cleared cache.
+	f.resCacheMu.Lock()
 	f.resCache.Clear()
+	f.resCacheMu.Unlock()
 
 	f.logger.InfoContext(ctx, "reset hosts", "num", count)
 
